@@ -32,7 +32,7 @@ def mk_tree(props, w, D, K, single_kind=False, prio_mode="tuple"):
             rest = a[2 * w:]
         ps = list(rest[:K])
         vs = list(rest[K:K + w])
-        conv = conc(rest[K + w], 4)
+        conv = conc(rest[K + w], 6)
         tup = concb(rest[K + w + 1])
         td = fam.tree(ds, ks, vs, tuple_root=tup)
         exp = "depth" if (single_kind or K == 1) else None
@@ -46,7 +46,7 @@ def tree_params(w, D, K, single_kind=False):
     if not single_kind:
         ps += [I("k%d" % i, 0, K - 1) for i in range(w)]
     ps += [I("p%d" % i) for i in range(K)] + [I("v%d" % i) for i in range(w)]
-    ps += [I("conv", 0, 3), B("tup")]
+    ps += [I("conv", 0, 5), B("tup")]
     return ps
 
 
@@ -264,7 +264,7 @@ def seq_step(sel, name, i, v):
 SEQ_MENU = 7
 
 
-def mk_seq(props, na=3, nb=2):
+def mk_seq(props, na=3, nb=2, options=None):
     def f(ho, *a):
         sa = [conc(a[i], SEQ_MENU) for i in range(na)]
         kb = [conc(a[na + i], 2) for i in range(nb)]
@@ -272,8 +272,8 @@ def mk_seq(props, na=3, nb=2):
         T = TaskD("T", SEQ(*[seq_step(s, "T", i, v) for i, s in enumerate(sa)]))
         Sb = fam.chain_kinds("Sib", kb, v + 50)
         td = TaskD("root", Y(4, TASK(T), TASK(Sb)))
-        return check_program(td, props, nkinds=2, prio=[p0, p1], hash_order=conc(ho, 2),
-                             sig=("seq", tuple(sa), tuple(kb)))
+        return check_program(td, props, nkinds=2, prio=[p0, p1], hash_order=conc(ho, 2), options=options,
+                             sig=("seq", tuple(sa), tuple(kb), tuple(options or ())))
     return f
 
 
@@ -282,9 +282,10 @@ def seq_params(na=3, nb=2):
             + [I("kb%d" % i, 0, 1) for i in range(nb)] + [I("p0"), I("p1"), I("v")])
 
 
-def seq_cond(name, props, na=3, nb=2, budget=200, builds=("C",)):
-    return Cond(name, mk_seq(props, na, nb), seq_params(na, nb), pin=2, builds=builds, budget=budget,
-                family="F-SEQ(%d,%d) mixed steps: items / tasks finishing in-pass / blocking tasks / consts" % (na, nb),
+def seq_cond(name, props, na=3, nb=2, budget=200, builds=("C",), options=None):
+    return Cond(name, mk_seq(props, na, nb, options), seq_params(na, nb), pin=2, builds=builds, budget=budget,
+                family="F-SEQ(%d,%d) mixed steps: items / tasks finishing in-pass / blocking tasks / consts%s" % (
+                    na, nb, (" with options %s on" % (list(options),)) if options else ""),
                 encodes=ENC_SCHED)
 
 
